@@ -120,7 +120,7 @@ LAYOUTS = [{}, {"nonascii": True}, {"tabs": True}, {"nonascii": True, "tabs": Tr
 
 def gen_case(rng, i):
     layout = dict(LAYOUTS[i % len(LAYOUTS)])
-    opts = {"p_noncanon": 0.4, "comments": True, "parens": (i % 11 == 10)}
+    opts = {"p_noncanon": 0.4, "comments": True, "parens": (i % 4 == 3)}
     prog = proggen.gen_program(rng, rich=(i % 3 == 0), style="assert", opts=opts, layout=layout)
     prog["opts"] = opts
     prog["flags"] = rng.choice(proggen.flag_subsets()[1:])
